@@ -28,14 +28,14 @@ func now() int64 { return int64(time.Since(t0)) }
 type stepKind int
 
 const (
-	stBlock   stepKind = iota // use k; lookup k; read; [expire]; re-read; release k
-	stLookup                  // unowned lookup diff
-	stBlob                    // unowned lookup blob
-	stInfo                    // lookup info
-	stExpire                  // expire the resolver caches
-	stFaultOn                 // inject the case's fault
-	stFaultOff                // heal
-	stUseOnly                 // use k; release k without a lookup in between
+	stBlock    stepKind = iota // use k; lookup k; read; [expire]; re-read; release k
+	stLookup                   // unowned lookup diff
+	stBlob                     // unowned lookup blob
+	stInfo                     // lookup info
+	stExpire                   // expire the resolver caches
+	stFaultOn                  // inject the case's fault
+	stFaultOff                 // heal
+	stUseOnly                  // use k; release k without a lookup in between
 )
 
 type step struct {
